@@ -242,6 +242,13 @@ func (x *Exec) execStmt(s ast.Stmt, st *State) *State {
 			x.note("defer ignored at " + x.pos(s))
 			return st
 		}
+		// deferred plain call without arguments (the mu.Unlock() idiom): run at every return of this
+		// path. The receiver expression is evaluated when the call runs (Go evaluates it at the defer
+		// statement; the two coincide as long as the receiver variable is not reassigned in between).
+		if _, isLit := s.Call.Fun.(*ast.FuncLit); !isLit && len(s.Call.Args) == 0 && len(x.frames) == 1 {
+			st.defers = append(st.defers, s.Call)
+			return st
+		}
 		panic(engErr("defer not supported at %s", x.pos(s)))
 	case *ast.GoStmt:
 		panic(engErr("go statement not supported at %s", x.pos(s)))
@@ -455,6 +462,7 @@ func (x *Exec) execReturn(s *ast.ReturnStmt, st *State) *State {
 	for i := range vals {
 		vals[i] = x.coerce(vals[i], f.results[i].Type())
 	}
+	x.runDefers(st)
 	f.returns = append(f.returns, st)
 	f.retVals = append(f.retVals, vals)
 	return nil
@@ -1233,3 +1241,14 @@ func loopHavocKey(spec *LoopSpec, key string) bool {
 	return false
 }
 
+
+// runDefers executes the deferred calls of this path in reverse order (results are already evaluated).
+func (x *Exec) runDefers(st *State) {
+	if len(x.frames) != 1 {
+		return
+	}
+	for i := len(st.defers) - 1; i >= 0; i-- {
+		x.evalCall(st.defers[i], st)
+	}
+	st.defers = nil
+}
